@@ -29,10 +29,17 @@ pub struct PolySpec {
     pub sym: bool,
     pub bound: Option<usize>,
     pub hiding: Option<usize>,
+    /// the zero polynomial (every coefficient / evaluation is the concrete 0)
+    pub zero: bool,
 }
 impl PolySpec {
     pub fn new(len: usize) -> Self {
-        PolySpec { len, sym: true, bound: None, hiding: None }
+        PolySpec { len, sym: true, bound: None, hiding: None, zero: false }
+    }
+    pub fn zero(mut self) -> Self {
+        self.zero = true;
+        self.sym = false;
+        self
     }
     pub fn conc(mut self) -> Self {
         self.sym = false;
@@ -146,7 +153,7 @@ pub fn polys<S: Sch>(cfg: &Cfg, rng: &mut StdRng) -> (Vec<LabeledPolynomial<SF, 
     let mut all = vec![];
     for (i, ps) in cfg.polys.iter().enumerate() {
         let n = S::ncoeffs(&cfg.sz, ps.len);
-        let c: Vec<SF> = (0..n).map(|j| if ps.sym { sym(&format!("p{}c{}", i, j)) } else { SF::rand(rng) }).collect();
+        let c: Vec<SF> = (0..n).map(|j| if ps.zero { SF::conc(ark_ff::Zero::zero()) } else if ps.sym { sym(&format!("p{}c{}", i, j)) } else { SF::rand(rng) }).collect();
         let p = S::poly(&cfg.sz, c.clone());
         lps.push(LabeledPolynomial::new(format!("p{}", i), p, ps.bound, ps.hiding));
         all.push(c);
